@@ -125,6 +125,15 @@ def sortByKey (key : PObj → Nat) : List PObj → List PObj
 def iter (p : Plane) : List PObj :=
   p.seq.filter (fun o => o.id ∈ p.objs)
 
+/-- `Plane.__contains__`: membership in the set `_objs` (Python identity = the numeric `id`). -/
+def contains (p : Plane) (o : PObj) : Bool := decide (o.id ∈ p.objs)
+
+/-- `Plane.__len__`: `len(self._objs)`. -/
+def len (p : Plane) : Nat := p.objs.length
+
+/-- `Plane.extend`: `add` for every object, in order. -/
+def extend (p : Plane) (os : List PObj) : Plane := os.foldl add p
+
 /-- The candidates `find` looks at (`found` before it is sorted): the cells of the query plus `_big`, or -
 for a query over more than `MAXCELLS` cells - every live object; de-duplicated, overlap-filtered. -/
 def findScan (p : Plane) (q : Rect) : List PObj :=
